@@ -48,7 +48,18 @@ BASES = [
     {'topo': 'two', 'wiring': 'conn_2d_row', 'units': 'm_cm', 'hier': 'nest1'},
     {'topo': 'two', 'wiring': 'prom2', 'units': 'degF_degK', 'hier': 'allG'},
     {'topo': 'two', 'wiring': 'scalar0d', 'units': 'm_cm'},       # 0-d source and input
+    # complex-allocated vectors (force_alloc_complex, as whenever an ExecComp is in the model):
+    # the real parts that set_val / get_val work on are strided views
+    {'topo': 'two', 'wiring': 'conn_list', 'units': 'm_cm', 'fac': True},
+    {'topo': 'two', 'wiring': 'conn_2d_tuple', 'units': 'degC_degF', 'fac': True},
 ]
+
+
+def _spec_of(bi, palette):
+    spec, why = models.spec_from_config(dict(BASES[bi], palette=palette))
+    if BASES[bi].get('fac'):
+        spec['force_alloc_complex'] = True
+    return spec
 
 COMPAT = {'m': 'cm', 'cm': 'm', 'km': 'm', 'degC': 'degF', 'degF': 'degC', 'degK': 'degC'}
 
@@ -176,7 +187,7 @@ def _ops(refm, reduced=False):
 def cases(tier, seed):
     out = []
     for bi, b in enumerate(BASES):
-        spec, why = models.spec_from_config(dict(b, palette=seed % 3))
+        spec = _spec_of(bi, seed % 3)
         refm = RefModel(spec)
         full = _ops(refm)
         red = _ops(refm, reduced=True)
@@ -305,13 +316,13 @@ def run_history(spec, hist):
 
 def check_case(case):
     if 'hist' in case:      # replay form
-        spec, _ = models.spec_from_config(dict(BASES[case['base']], palette=case.get('palette', 0)))
+        spec = _spec_of(case['base'], case.get('palette', 0))
         st, vio = run_history(spec, [tuple(o) for o in case['hist']])
         for v in vio:
             v['case'] = case
         return {'evals': 1, 'violations': vio, 'outcome': 'violation' if vio else 'ok'}
     bi = case['base']
-    spec, _ = models.spec_from_config(dict(BASES[bi], palette=case.get('palette', 0)))
+    spec = _spec_of(bi, case.get('palette', 0))
     refm0 = RefModel(spec)
     full = _ops(refm0)
     red = _ops(refm0, reduced=True)
